@@ -34,4 +34,13 @@ def buildHeader (version layer protection bitrate sampleRate padding priv mode r
   bitsToBytes (packFields [(11, 0x7ff), (2, version), (2, layer), (1, protection), (4, bitrate),
     (2, sampleRate), (1, padding), (1, priv), (2, mode), (6, rest)])
 
+/-- Layer III side information (ISO/IEC 11172-3 §2.4.1.7, 13818-3 §2.4.1.7): 32 bytes for two-channel
+MPEG-1 frames, 17 for single-channel MPEG-1 and two-channel MPEG-2/2.5 (LSF), 9 for single-channel LSF -/
+def sideInfoSize (mpeg1 mono : Bool) : Nat :=
+  match mpeg1, mono with
+  | true, false => 32
+  | true, true => 17
+  | false, false => 17
+  | false, true => 9
+
 end Mutagen.Spec.Mpeg
